@@ -1,7 +1,9 @@
 """C11 — splitting on a marker partitions the track; markers reflect the thresholds
 (tracklib/algo/segmentation.py: segmentation(), split(); tracklib/core/track.py: Track.extract, Track.length,
 Track.getObsAnalyticalFeature on the built-in names; tracklib/core/utils.py: isnan; tracklib/core/obs_time.py: the comparison
-operators of ObsTime; tracklib/core/track_collection.py: TrackCollection.segmentation, split_segmentation)."""
+operators of ObsTime; tracklib/core/track_collection.py: TrackCollection.segmentation, split_segmentation).
+Numbers cross the harness with their Python type: 'I<n>' a Python int of any size, 'N<n>' a numpy.int64, 'D<p/q>' a
+numpy.float64, any other number token a Python float — segmentation() hands cells and thresholds to `<=` as they are."""
 import sys, itertools, math, datetime
 from fractions import Fraction
 from engine import Prop, ratstr, fbits
@@ -45,6 +47,52 @@ class Tm:
         return self.ms > o.ms
 
 
+def isint(tok):
+    """case token of a number with its Python type: 'I<n>' = the Python int n (any size), 'N<n>' = numpy.int64(n),
+    'D<p/q>' = numpy.float64 of that value; every other number token is a Python float"""
+    return tok[:1] in ("I", "N", "D")
+
+
+def numval(tok):
+    """token of a number -> the python object given to tracklib"""
+    if tok[:1] == "I":
+        return int(tok[1:])
+    if tok[:1] == "N":
+        import numpy as np
+        return np.int64(int(tok[1:]))
+    if tok[:1] == "D":
+        import numpy as np
+        return np.float64(fval(tok[1:]))
+    return fval(tok)
+
+
+def flavour(tok, cell=False):
+    """(is an integer type, is a numpy scalar) of a number token; an untyped CELL token naming a Python int / bool of
+    VALS is that int, every other untyped token a Python float"""
+    if tok[:1] in ("I", "N"):
+        return True, tok[0] == "N"
+    if tok[:1] == "D":
+        return False, True
+    return (cell and tok in VALS and isinstance(VALS[tok], int)), False
+
+
+def converts_inexactly(v, th):
+    """does Python's `v <= th` on these two number tokens go through numpy's conversion of the integer operand to a
+    double, AND does that conversion change the integer? (numpy.int64 against a float, numpy.float64 against a Python int
+    beyond 2^53: the comparison is numpy's, not an exact one)"""
+    (vi, vn), (ti, tn) = flavour(v, True), flavour(th)
+    if not (vn or tn) or vi == ti:
+        return False
+    tok = v if vi else th
+    n = int(VALS[tok]) if tok in VALS else int(exact(tok))
+    return int(float(n)) != n
+
+
+def dbl(n):
+    """token of the double nearest to the integer n (what float(n) is)"""
+    return ratstr(Fraction(float(n)))
+
+
 def fval(tok):
     """token of a tested value / threshold -> python float"""
     if tok == "nan":
@@ -60,15 +108,17 @@ def tokval(tok):
     """token of a feature cell / threshold -> the python value given to tracklib"""
     if istime(tok):
         return _OBSTIME[0](*tm_fields(int(tok[1:])))
-    return VALS[tok] if tok in VALS else fval(tok)
+    return VALS[tok] if tok in VALS else numval(tok)
 
 
 def valtok(v):
-    """python value read from a track -> exact protocol token (by value: True = 1 = 1.0)"""
+    """python value read from a track -> exact protocol token (by value: True = 1 = 1.0 = numpy.int64(1))"""
     if isinstance(v, bool):
         return "1" if v else "0"
     if hasattr(v, "year"):          # an ObsTime: its seven fields
         return "@%d.%d.%d.%d.%d.%d.%d" % (v.year, v.month, v.day, v.hour, v.min, v.sec, v.ms)
+    if isinstance(v, int) or getattr(getattr(v, "dtype", None), "kind", "") in ("i", "u"):
+        return str(int(v))          # an integer of any size, exactly (float() would round it beyond 2^53)
     f = float(v)
     if f != f:
         return "nan"
@@ -89,7 +139,7 @@ def exact(tok):
         return INF
     if tok == "-inf":
         return -INF
-    return Fraction(tok)
+    return Fraction(tok[1:] if isint(tok) else tok)
 
 
 def kind(tok):
@@ -98,11 +148,50 @@ def kind(tok):
 
 def mtok(tok):
     """case token -> protocol token (an instant is sent as its seven calendar fields)"""
+    if isint(tok):
+        return tok[1:]              # the model's numbers are exact rationals: a number is itself, whatever its Python type
     return "@%d.%d.%d.%d.%d.%d.%d" % tm_fields(int(tok[1:])) if istime(tok) else tok
 
 
 def coord(tok):
     return float(tok)               # "nan", "inf", "-inf", decimal
+
+
+_SAFE = set("abcdefghijklmnopqrstuvwxyzABCDEFGHIJKLMNOPQRSTUVWXYZ0123456789_#")
+
+
+def enc(name):
+    """feature name -> protocol token: every character but ASCII letters, digits, '_', '#' as %<4 hex digits>"""
+    return "".join(ch if ch in _SAFE else "%%%04x" % ord(ch) for ch in name)
+
+
+def dec(tok):
+    out, i = [], 0
+    while i < len(tok):
+        if tok[i] == "%":
+            out.append(chr(int(tok[i + 1:i + 5], 16)))
+            i += 5
+        else:
+            out.append(tok[i])
+            i += 1
+    return "".join(out)
+
+
+# feature names that Track.__getitem__ would not read as a name: a key holding one of + - / * ^ > < ( ) = ' { is handed to
+# the expression evaluator, and the key is strip()ped first. getObsAnalyticalFeature / createAnalyticalFeature take any
+# string but the six built-in names. {a}, {b}: names of other features of the same track (or built-in names).
+EXOTIC = ["{a}-{b}", "{a}+{b}", "{a}*{b}", "{a}/{b}", "{a}^{b}", "{a}>{b}", "{a}<{b}", "{a}>={b}", "{a}=={b}", "{a}={b}",
+          "({a})", "{a}-1", "1-{a}", "{a}+1", "2*{a}", "-{a}", "{a}^2", "'{a}'", "{{{a}}}", "D{{{a}}}", "{a}>>1", "{a}-{a}",
+          " {a}", "{a} ", "\t{a}", "{a}\n", " {a} ", "{a} {b}", "{a},{b}", "{a};{b}", "{a}|{b}", "{a}.{b}", "{a}%{b}",
+          "{a}\u00e9", "{a}:{b}", "[{a}]", "{a}[0]", "{a} - {b}", "{a}_{b}", "{a}&{b}", "@{a}", "{a}?", "1", "1.0", "-1", " "]
+
+
+def exotic_name(rng, operands, taken=()):
+    for _ in range(20):
+        nm = rng.choice(EXOTIC).format(a=rng.choice(operands), b=rng.choice(operands))
+        if nm not in taken and nm not in VIRTUAL and nm not in BUILTIN:
+            return nm
+    return "marker"
 
 
 def limval(tok):
@@ -188,7 +277,7 @@ def parse_table(tok):
     out = []
     for e in tok.split(";"):
         nm, vs = e.split("=")
-        out.append([nm, [] if vs == "_" else vs.split(",")])
+        out.append([dec(nm), [] if vs == "_" else vs.split(",")])
     return out
 
 
@@ -214,6 +303,8 @@ class P(Prop):
         (M, "TV.C11.extract_inclusive", "Track.extract(a, b), 0 <= a <= b < size, is the run a..b with both ends"),
         (M, "TV.C11.extract_reversed_empty", "Track.extract(a, b) with a > b is the empty track, never an error"),
         (M, "TV.C11.split_indices", "split(track, [sorted in-range indices], limit): the runs i_k..i_{k+1} that are not short, len-1 of them when limit = 0"),
+        (M, "TV.C11.extract_any", "Track.extract(a, b) for any integers: IndexError iff some index of a..b is outside [-size, size); else b-a+1 observations, the j-th being track[a+j] (Python indexing)"),
+        (M, "TV.C11.split_indices_any", "split(track, <any index list>, limit): IndexError iff one of the ranges source[i]..source[i+1] leaves [-size, size); else the extracts that are not short, in order"),
         (M, "TV.C11.split_collection", "split_segmentation: the pieces in order are the tracks having a marked observation, each observation once, in order"),
         (M, "TV.C11.marker_and_ord", "AND mode, any scalar type with a total comparison: call succeeds and marker = 1 iff some tested non-NaN value exceeds its threshold"),
         (M, "TV.C11.marker_or_ord", "OR mode, same generality: marker = 1 iff every tested non-NaN value exceeds its threshold"),
@@ -245,14 +336,33 @@ class P(Prop):
         (M, "TV.C11.segmentation_track_typed", "segmentation_track for the operator-call model: tested features of any kind (built-in 'timestamp' included), typed against their thresholds"),
         (M, "TV.C11.segmentation_track_val", "the same on numbers and ObsTime objects: every tested feature holding values of the kind of its threshold (e.g. ['speed', 'timestamp'] against [5.0, ObsTime])"),
         (M, "TV.C11.segmentation_history_typed", "segmentation_history for the operator-call model, exceptions included"),
+        (M, "TV.C11.split_reads_named_column", "getObsAnalyticalFeature(source, i) finds the column stored under the whole string `source` (not stripped, not parsed), whatever other features exist and whatever their names are"),
+        (M, "TV.C11.split_track_frame", "split(track, source[, limit]) depends on the track only through its size and the column read under the name `source`"),
+        (M, "TV.C11.split_track_property", "for a track having a feature `source`: split(track, source) succeeds; no cell equal to 1 -> empty; else the pieces are 0..size-1 once and in order, each but the last ending at a cell equal to 1 and holding no other, the last holding none"),
+        (M, "TV.C11.split_track_uid", "the same front end with a limit: the pieces of split_limit_filter with the uid numbers, on the markers read under the name"),
+        (M, "TV.C11.split_track_unknown", "outside the domain: an unknown name is AnalyticalFeatureError on a non-empty track, the empty collection on an empty one"),
+        (M, "TV.C11.segmentation_then_split", "segmentation(track, afs, out, ths, mode) then split(track, out): both succeed and the result is the split on the markers of the rows (the 1 / 0 column is read back under the same name with == 1), any kind of value"),
+        (M, "TV.C11.segmentation_then_split_val", "the same on numbers and ObsTime objects with Python's == 1 (1, 1.0, True are marked; NaN, other numbers, an ObsTime are not)"),
+        (M, "TV.C11.num_le_python", "`a <= b` between a Python int / float and a Python int / float, any pairing, any size: the exact comparison of the values (the int is not converted to a float)"),
+        (M, "TV.C11.num_le_small", "numpy scalars: where numpy converts an integer operand to a double (integer against float) an integer below 2^53 is unchanged, the comparison is still exact"),
+        (M, "TV.C11.marker_and_num", "AND mode on numbers with their Python types (ints beyond 2^53 / int64, floats, numpy scalars; no pair that numpy converts): marker = 1 iff some tested non-NaN value EXACTLY exceeds its threshold — no threshold is rounded"),
+        (M, "TV.C11.marker_or_num", "OR mode, same: marker = 1 iff every tested non-NaN value exactly exceeds its threshold"),
     ]
     partial = []
     open_statements = [
         "Track.length is an uninterpreted function of the piece in the limit theorems (that is what makes them cover NaN lengths); "
         "its float evaluation (sqrt, the order of the additions) is only in the driver (model run at Float) and the correspondence",
-        "split(track, <index list>) with unsorted / negative / out-of-range indices: modelled (Python indexing, IndexError) and run in the "
-        "correspondence, no theorem beyond extract_reversed_empty",
+        "Track.__getitem__ (track[name]: strip() of the key, a key holding one of + - / * ^ > < ( ) = ' { handed to the expression "
+        "evaluator of C02) is not on the call path of split() / segmentation(), which go through getObsAnalyticalFeature / "
+        "setObsAnalyticalFeature / createAnalyticalFeature; it is not modelled here: the model's lookup is by the exact string "
+        "(split_reads_named_column) and the correspondence runs names on which the two would differ",
         "a NaN threshold, thresholds_max = None, tuples as feature lists, an empty track (AnalyticalFeatureError) are outside the domain",
+        "a numpy scalar compared with a number of the other sort (numpy.int64 against a float, numpy.float64 against a Python int) "
+        "beyond 2^53: numpy converts the integer operand to the nearest double before comparing, so `exceeds` is numpy's and not the "
+        "exact one; modelled (PNum.le?, roundInt) and compared on every such case, not judged by the oracle; theorems marker_and_num / "
+        "marker_or_num assume no such pair, num_le_small shows the conversion is harmless below 2^53; no theorem yet that roundInt is "
+        "monotone (which would give `marker = 1 iff some value exceeds its threshold after rounding the integers`); strings as thresholds "
+        "('35': TypeError against a number) are outside the domain",
         "a number tested against an ObsTime threshold or the reverse (AttributeError unless the marker is already decided: `False and ...`, "
         "`True or ...`) is outside the domain: modelled (Val.le?, the evaluation order in foldCmpG), theorems marker_first_raises / "
         "marker_decided_first for the first tested value only; run on both sides, not compared (the property promises nothing there)",
@@ -260,7 +370,9 @@ class P(Prop):
         "at Float on TV.ObsTime.toAbsSec; values of other classes with their own __le__ / __ne__ (strings, user classes) are covered by "
         "marker_and_typed / marker_or_typed as hypotheses on the operators, not generated",
     ]
-    modelled = ("segmentation.split(track, <feature name>, limit) (begin / extract(begin, i) inclusive / begin moved before the limit test / "
+    modelled = ("segmentation.split(track, <feature name>, limit) as a whole: the marker read through getObsAnalyticalFeature(name, i) "
+                "(the six built-in names first, then the feature dictionary by the exact string), `== 1` by value (1, 1.0, True; not NaN, "
+                "not an ObsTime), AnalyticalFeatureError for an unknown name unless the track is empty; the loop (begin / extract(begin, i) inclusive / begin moved before the limit test / "
                 "the two limit tests `limit > 0 and length < limit` and `limit == 0 or (limit > 0 and length >= limit)` / tail when "
                 "begin != 0, the uid numbers count / begin / end of every piece), split(track, <index list>, limit), Track.extract (range(a, b+1) with Python list indexing, a > b gives an "
                 "empty track), Track.length (sum of 3D distances, at Float), TrackCollection.segmentation / split_segmentation, and "
@@ -270,8 +382,32 @@ class P(Prop):
                 "float-max default, marker = not fold written as 1 / 0 into the feature table; the same loops with utils.isnan (v != v) and "
                 "`v <= threshold` as Python operator calls on numbers and ObsTime objects (ObsTime.__ne__ / __le__ / __gt__ of core/obs_time.py, "
                 "the AttributeError of a number against an ObsTime, the evaluation order of `comp and (...)` / `comp or (...)`); "
-                "Track.getObsAnalyticalFeature for the built-in names x y z t timestamp idx")
-    rule = ("HISTORY: about half of the segmentation cases run on a track whose output feature already exists (left by a previous "
+                "Track.getObsAnalyticalFeature for the built-in names x y z t timestamp idx; `<=` on numbers with their Python types "
+                "(Python int of any size / float / numpy.int64 / numpy.float64: exact, except numpy's conversion of the integer operand of "
+                "an integer-float pair to the nearest double, ties to even — PNum.le?, roundInt of Model/SplitNum.lean); segmentation() "
+                "itself converts neither cell nor threshold")
+    rule = ("EXACT INTEGERS: tested features holding Python ints of any size (epoch nanoseconds, counters, 64-bit identifiers, beyond int64) "
+            "and numpy.int64 cells, against Python-int / numpy.int64 / float thresholds around 0, 1000, +-2^53, 2^54, 10^16, 2^60, 1.7e18, "
+            "+-2^62, 2^64, 3e20: thresholds that are NOT doubles, values equal to the threshold, next to it, at / next to the double nearest "
+            "to it, half a spacing of the doubles away; int and float cells in one column; for every base a grid of 1..2 features x AND/OR x "
+            "{below, equal, above, NaN} by 1 and by half / one spacing; bare / list forms, history, output = tested feature, then split. "
+            "Thresholds and cells reach tracklib as the Python objects the tokens name (an int stays an int). The oracle compares exact "
+            "rationals. Every such case also runs on the typed-number model (markerp / segsplitp), which must agree with the exact model "
+            "unless numpy converts an integer beyond 2^53 (numpy.int64 against a float, numpy.float64 against a Python int: ~1 in 6 of "
+            "the numpy cases; compared with the typed model, not judged by the oracle). mutate(): an integer-valued case moved by one "
+            "of the bases, as Python ints. "
+            "NAMES: feature names are arbitrary strings (any but x y z t timestamp idx): the marker of split(), the tested and output "
+            "features of segmentation() (also through TrackCollection) are also given names that are not identifiers — reading like an "
+            "expression over OTHER features of the same track, which exist with per-observation values 0..3 / NaN (`speed-limit` next to "
+            "`speed` and `limit`, `a>=b`, `2*a`, `(a)`, `D{a}`, `a=b`), differing from another feature's name by surrounding blanks / tab / "
+            "newline (` a` next to `a`), holding separators, quotes, braces, brackets, non-ASCII letters, or looking like a number; every "
+            "marker vector n = 1..4 (6) x every such form; split() on a name the track does not have (outside the domain: run, not compared). "
+            "The oracle finds the marker cells in the case's own data by the exact name. Every split() case also runs on the model's "
+            "track (splitTrackU: the name looked up in the table, == 1 on the cell) and must agree with the loop on the marker vector; "
+            "every segmentation()+split() case runs segseqsplitv (split reading the written column back by name). "
+            "SESSIONS: every split() is called twice on the same track (the oracle judges the second result too when it differs); with a "
+            "previous segmentation() the track is also split on the earlier marker before the call under test. "
+            "HISTORY: about half of the segmentation cases run on a track whose output feature already exists (left by a previous "
             "segmentation() with other thresholds/mode, created by the user with 0/1/2/0.5/NaN values, or all 1s), or write the marker into one "
             "of the tested features; other features (incl. names like #mark, #0, marker, out), uid, tid, base vary; the model replays the whole "
             "sequence of calls on the feature table and the whole table is compared; the oracle is about the LAST call. "
@@ -319,6 +455,10 @@ class P(Prop):
                 "split(): all 2^n marker vectors for n = 1..%d x one observation without elevation (Z = NaN) at every position" % self.nmax_nan(tier),
                 "segmentation(): 1..3 tested features x AND/OR x every combination of {below, equal, above, NaN} per feature, "
                 "for 4 threshold vectors, as one track and as single-observation tracks",
+                "split(): all 2^n marker vectors for n = 1..%d x %d forms of marker-feature name that are not identifiers (expression-like over "
+                "the features a and b of the same track, surrounding blanks, separators, quotes, braces, digits)" % (4 if tier == "quick" else 6, len(EXOTIC)),
+                "segmentation(): %d magnitudes (0 .. 2^53 .. 2^64 .. 3e20) x 1..2 integer features x integer (not a double) / float threshold x "
+                "AND/OR x every combination of {below, equal, above, NaN} per feature, as one track and as single-observation tracks" % len(self.BIG),
                 "segmentation(): 1..2 tested features, each numeric or ObsTime-valued (ObsTime threshold) x AND/OR x every combination "
                 "of {earlier/below, equal, later/above, NaN} per feature, as feature columns and with the built-in 'timestamp' first"]
 
@@ -365,6 +505,70 @@ class P(Prop):
             c["times"] = tm
         if rng.random() < 0.5:
             c["env"] = self.rand_env(rng)
+        return c
+
+    OPERANDS = ["speed", "limit", "a", "b", "v", "vmax", "f0", "f1", "s", "cut"]
+    OPVALS = ["0", "1", "1", "2", "2", "3", "3", "-1", "0.5", "nan"]
+
+    def rand_cols(self, rng, n, names):
+        return [[nm, [rng.choice(self.OPVALS) for _ in range(n)]] for nm in names]
+
+    def rand_splitn(self, rng):
+        """split() on a marker feature whose NAME is not an identifier: it reads like an expression over other features of
+        the same track (`speed-limit` next to `speed` and `limit`), differs from another feature's name by surrounding
+        blanks, holds separators / quotes / braces / non-ASCII characters, or looks like a number. Any string but the six
+        built-in names is a feature name for createAnalyticalFeature / getObsAnalyticalFeature."""
+        c = self.rand_splitg(rng)
+        c.pop("src", None)
+        n = len(c["vals"])
+        ops = rng.sample(self.OPERANDS, rng.randrange(1, 3))
+        c["cols"] = self.rand_cols(rng, n, ops)
+        if rng.random() < 0.4:
+            c["cols_after"] = True
+        c["mname"] = exotic_name(rng, ops + ([rng.choice(["x", "y", "z", "idx", "t"])] if rng.random() < 0.2 else []), taken=ops)
+        r = rng.random()
+        if r < 0.08:
+            c["src"] = rng.choice(ops)                    # split on the other feature: its own cells decide
+        elif r < 0.14:
+            c["src"] = rng.choice([c["mname"].strip(), c["mname"] + " ", "no such feature"]) or "no such feature"   # mostly unknown: outside the domain
+        return c
+
+    def name_grid(self, rng, nmax):
+        """all marker vectors n = 1..nmax x every exotic name form, the operand features `a` and `b` being present"""
+        out = []
+        for n in range(1, nmax + 1):
+            for bits in itertools.product("01", repeat=n):
+                for form in EXOTIC:
+                    out.append({"kind": "splitv", "vals": list(bits), "mname": form.format(a="a", b="b"),
+                                "cols": self.rand_cols(rng, n, ["a", "b"]), "cols_after": rng.random() < 0.5})
+        return out
+
+    def with_names(self, rng, case):
+        """variant of a seg case (as made by with_forms) whose tested features / output feature have exotic names"""
+        c = {k_: (list(v) if isinstance(v, list) else v) for k_, v in case.items()}
+        names = list(self.names(c))
+        n = len(c["rows"])
+        plain = [nm for nm in names if nm not in VIRTUAL and nm not in BUILTIN]
+        extra = rng.sample(self.OPERANDS, rng.randrange(0, 2))
+        extra = [nm for nm in extra if nm not in names]
+        operands = sorted(set(plain + extra + [nm for nm in names if nm in VIRTUAL or nm in ("t", "idx")])) or ["a"]
+        ren = {}
+        for nm in sorted(set(plain)):
+            if rng.random() < 0.5:
+                ren[nm] = exotic_name(rng, operands, taken=names + list(ren.values()))
+        names = [ren.get(nm, nm) for nm in names]
+        c["names"] = names
+        if c.get("outname") in ren:
+            c["outname"] = ren[c["outname"]]
+        elif not c.get("outname") and rng.random() < 0.7:
+            c["outname"] = exotic_name(rng, operands + names, taken=names + extra)
+        if extra:
+            c["cols"] = self.rand_cols(rng, n, extra)
+            c["cols_after"] = rng.random() < 0.5
+        if len(names) != 1:
+            c.pop("afs_form", None)
+        c.pop("scalar", None)
+        c["split"] = True
         return c
 
     def rand_splitidx(self, rng):
@@ -522,6 +726,109 @@ class P(Prop):
                             out.append(c1)
         return out
 
+    # ---- exact integers: Python ints of any size (epoch nanoseconds, counters, 64-bit identifiers), numpy.int64 cells
+    # Python compares int with int and int with float EXACTLY (the int is not converted), so a tested value and a
+    # threshold that differ by 1 beyond 2^53 are told apart; numpy.int64 against a Python int / numpy.int64 as well.
+    # (numpy.int64 against a float, numpy.float64 against a Python int: numpy converts the integer to a double first;
+    # those pairs are generated below 2^53 only, where the conversion is exact.)
+    BIG = [2 ** 53, -2 ** 53, 2 ** 60, 1_700_000_000_000_000_000, 2 ** 62, -2 ** 62 - 2 ** 20, 10 ** 16, 2 ** 54,
+           2 ** 53 - 6, 0, 1000, 2 ** 64, 3 * 10 ** 20]
+
+    @staticmethod
+    def ulp(n):
+        """spacing of the doubles around the integer n"""
+        return max(1, 2 ** (abs(n).bit_length() - 53))
+
+    def int_threshold(self, rng, base, u):
+        """an integer threshold around `base`: mostly NOT a double (so that float(threshold) != threshold)"""
+        r = rng.random()
+        if r < 0.6:
+            return base + rng.randrange(-3 * u, 3 * u + 1)
+        if r < 0.8:
+            return base + rng.choice([-1, 1, u // 2, -(u // 2), u // 2 + 1, u + 1, u - 1])
+        return base + rng.randrange(-3, 4) * u            # a double
+
+    def int_value(self, rng, T, u):
+        """an integer near the threshold T: equal, next to it, at / next to the double nearest to T, half a spacing away"""
+        R = int(float(T)) if abs(T) < 2 ** 1000 else T
+        return rng.choice([T, T, T - 1, T + 1, R, R - 1, R + 1, (T + R) // 2, T + u // 2, T - u // 2, T + u, T - u,
+                           R + u, R - u, T + rng.randrange(-3 * u, 3 * u + 1)])
+
+    def rand_segi(self, rng, base=None):
+        """segmentation() on features holding exact integers against integer / float thresholds around `base`"""
+        k = rng.randrange(1, 4)
+        n = rng.randrange(1, 9)
+        base = rng.choice(self.BIG) if base is None else base
+        u = self.ulp(base)
+        pn = rng.choice([0.0, 0.0, 0.15, 0.4])
+        small = abs(base) + 8 * u < 2 ** 53                # every integer in sight is a double: any pairing is exact
+        in64 = abs(base) + 8 * u < 2 ** 63
+        # `free`: any pairing of Python / numpy integers and floats, also where numpy converts the integer operand to a
+        # double beyond 2^53 (outside what the oracle judges: compared with the typed model only)
+        free = in64 and rng.random() < 0.2
+        ths, cols = [], []
+        for j in range(k):
+            ck = rng.choice(["int", "int", "float", "mixed"] + (["npint"] if in64 else []) + (["npfloat", "any", "npint"] if free else []))
+            T = self.int_threshold(rng, base, u)
+            if free:
+                tk = rng.choice(["I", "N", "F", "D"])
+            elif ck == "npint":
+                tk = rng.choice(["I", "I", "N"] + (["F"] if small else []))
+            else:
+                tk = rng.choice(["I", "I", "I", "F"] + (["N"] if (in64 and (small or ck == "int")) else []))
+            if tk in ("F", "D"):
+                ths.append(("D" if tk == "D" else "") + dbl(T))      # a float threshold (the double nearest to T)
+                T = int(exact(ths[-1]))
+            else:
+                ths.append(tk + str(T))
+            col = []
+            for i in range(n):
+                if rng.random() < pn:
+                    col.append("nan")
+                    continue
+                v = self.int_value(rng, T, u)
+                c_ = ck if ck not in ("mixed", "any") else rng.choice(["int", "float"] if ck == "mixed" else ["int", "float", "npint", "npfloat"])
+                if tk == "N" and c_ == "float" and not small and not free:
+                    c_ = "int"                               # a float against numpy.int64: numpy's conversion
+                col.append({"float": "", "npfloat": "D"}[c_] + dbl(v) if c_ in ("float", "npfloat") else ("N" if c_ == "npint" else "I") + str(v))
+            cols.append(col)
+        r = rng.random()
+        if r < 0.1:
+            ths.append("I" + str(base + 1))                  # an extra threshold: never read
+        c = {"kind": "seg", "mode": rng.choice(["and", "or"]), "ths": ths, "rows": [[cols[j][i] for j in range(k)] for i in range(n)],
+             "split": rng.random() < 0.8}
+        if k == 1:
+            c["afs_form"] = rng.choice(["str", "list"])
+        c["ths_form"] = "scalar" if (len(ths) == 1 and rng.random() < 0.5) else "list"
+        if rng.random() < 0.25:
+            c["pre"] = {"type": "seg", "mode": rng.choice(["and", "or"]), "ths": ["I" + str(self.int_threshold(rng, base, u)) for _ in range(k)]}
+        elif rng.random() < 0.15:
+            c["outname"] = "f%d" % rng.randrange(k)          # the marker overwrites one of the tested features
+        return c
+
+    def int_grid(self, rng):
+        """for every base of BIG: 1..2 tested integer features x AND/OR x every combination of {below, equal, above, NaN}
+        by 1 and by half / one spacing of the doubles, against an integer threshold that is not a double (where there
+        are such) and against the double next to it"""
+        out = []
+        for base in self.BIG:
+            u = self.ulp(base)
+            for k in (1, 2):
+                Ts = [base + (u // 2 + 1 if u > 1 else 1) + 2 * j * u + j for j in range(k)]
+                for form in ("I", "F"):
+                    ths = [("I" + str(T)) if form == "I" else dbl(T) for T in Ts]
+                    Te = [int(exact(t)) for t in ths]
+                    rows = []
+                    for combo in itertools.product("beaN", repeat=k):
+                        d = rng.choice([1, 1, max(1, u // 2), u])
+                        rows.append(["nan" if ch == "N" else "I" + str(Te[i] + {"b": -d, "e": 0, "a": d}[ch]) for i, ch in enumerate(combo)])
+                    for mode in ("and", "or"):
+                        out.append({"kind": "seg", "mode": mode, "ths": ths, "rows": rows, "split": True})
+                        for r in rows:
+                            out.append({"kind": "seg", "mode": mode, "ths": ths, "rows": [r], "split": False,
+                                        "ths_form": "scalar" if (k == 1 and rng.random() < 0.5) else "list"})
+        return out
+
     def cases(self, rng, tier):
         out = []
         quick = tier == "quick"
@@ -544,6 +851,9 @@ class P(Prop):
             out.append(self.rand_splitg(rng))
         for _ in range(6 if quick else 60):
             out.append(self.rand_splitg(rng, long=True))
+        out += self.name_grid(rng, 4 if quick else 6)
+        for _ in range(1200 if quick else 40000):
+            out.append(self.rand_splitn(rng))
         for _ in range(400 if quick else 15000):
             out.append(self.rand_splitidx(rng))
         # grids
@@ -585,9 +895,16 @@ class P(Prop):
                 out.append(self.with_history(rng, c, pool))
             if rng.random() < 0.5:
                 out.append(self.with_forms(rng, c))
+            if nth >= k and rng.random() < 0.4:
+                out.append(self.with_names(rng, self.with_forms(rng, c)))
         out += self.kind_grid(rng)
+        out += self.int_grid(rng)
+        for _ in range(1500 if quick else 40000):
+            out.append(self.rand_segi(rng))
         for _ in range(1500 if quick else 40000):
             out.append(self.rand_segb(rng))
+            if rng.random() < 0.25 and self.in_domain(out[-1]):
+                out.append(self.with_names(rng, out[-1]))
         for _ in range(300 if quick else 12000):
             k = rng.randrange(1, 3)
             ths = [ratstr(rng.choice(pool)) for _ in range(k + (1 if rng.random() < 0.2 else 0))]
@@ -598,6 +915,13 @@ class P(Prop):
                 hi = rng.random() < 0.25            # a track on which nothing exceeds: it must contribute no piece
                 tracks.append([["nan" if rng.random() < pn else ratstr(Fraction(-50) if hi else rng.choice(pool)) for _ in range(k)] for _ in range(n)])
             out.append({"kind": "coll", "mode": rng.choice(["and", "or", "default"]), "ths": ths, "tracks": tracks})
+            if rng.random() < 0.3:       # tested / output features with names that are not identifiers
+                nms = ["f%d" % j for j in range(k)]
+                for j in range(k):
+                    if rng.random() < 0.6:
+                        nms[j] = exotic_name(rng, ["f%d" % i for i in range(k)], taken=nms)
+                out[-1]["names"] = nms
+                out[-1]["outname"] = exotic_name(rng, nms, taken=nms)
         return out
 
     TEMP_NAMES = ["#mark", "#0", "#1", "marker", "out", "tag2", "comp", "idx2", "seuil_max"]
@@ -682,7 +1006,22 @@ class P(Prop):
         c["split"] = True
         return c
 
+    def has_types(self, case):
+        return case["kind"] == "seg" and any(isint(x) for x in list(case["ths"]) + [v for r in case["rows"] for v in r])
+
+    def npconv(self, case):
+        """a compared pair for which numpy rounds the integer operand to a double before comparing: what `exceeds` means there
+        is numpy's business; run on both sides and compared with the model (PNum.le?), not judged by the oracle"""
+        if not self.has_types(case):
+            return False
+        ths = case["ths"]
+        return any(v != "nan" and j < len(ths) and not istime(v) and not istime(ths[j]) and ths[j] != "nan" and converts_inexactly(v, ths[j])
+                   for r in case["rows"] for j, v in enumerate(r))
+
     def in_domain(self, case):
+        return self.in_domain0(case) and not self.npconv(case)
+
+    def in_domain0(self, case):
         if case["kind"] == "seg":
             if not case["rows"]:
                 return True
@@ -692,6 +1031,8 @@ class P(Prop):
             return all(v == "nan" or kind(v) == kind(case["ths"][j]) for r in self.eff_rows(case) for j, v in enumerate(r))
         if case["kind"] == "coll":
             return len(case["ths"]) >= len(case["tracks"][0][0])
+        if case["kind"] in ("split", "splitv", "splitg"):
+            return self.marks(case) is not None      # split() on a name the track does not have: no claim
         return True
 
     def describe(self, case):
@@ -701,6 +1042,12 @@ class P(Prop):
             m = case["m"]
             t["n"] = len(m)
             t["shape"] = ("none" if "1" not in m else "") + ("first" if m[0] == "1" else "") + ("last" if m[-1] == "1" else "") + ("adjacent" if "11" in m else "")
+        if k in ("split", "splitv", "splitg"):
+            src = self.source(case)
+            if enc(src) != src:
+                t["names"] = "exotic"
+            if self.marks(case) is None:
+                t["domain"] = "unknown-name"
         if k in ("splitg", "splitidx"):
             lim = case.get("limit", "default")
             t["limit"] = "0" if lim in ("default", "0", "0.0") else ">0"
@@ -710,7 +1057,9 @@ class P(Prop):
             t["mode"] = case["mode"]
             t["features"] = len(case["rows"][0])
             t["domain"] = "in" if len(case["ths"]) >= len(case["rows"][0]) else "fewer-thresholds"
-            t["history"] = (case["pre"]["type"] if case.get("pre") else "out=" + case["outname"][:1] if case.get("outname") else "fresh")
+            t["history"] = (case["pre"]["type"] if case.get("pre") else "out=tested" if case.get("outname") in self.names(case) else "fresh")
+            if any(enc(nm) != nm for nm in self.names(case) + [case.get("outname", "out")]):
+                t["names"] = "exotic"
             afs, ths = self.forms(case)
             t["forms"] = afs + "/" + ths
             if any(nm in VIRTUAL for nm in self.names(case)):
@@ -720,13 +1069,22 @@ class P(Prop):
                 t["builtin"] = "+".join(bi)
             kds = set(kind(v) for r in self.eff_rows(case) for v in r if v != "nan")
             t["values"] = "mixed" if len(kds) == 2 else "ObsTime" if kds == {"time"} else "numbers"
-            if t["domain"] == "in" and not self.in_domain(case):
+            if t["domain"] == "in" and not self.in_domain0(case):
                 t["domain"] = "number-vs-ObsTime"
             flat = [v for r in case["rows"] for v in r] + list(case["ths"])
             if "inf" in flat or "-inf" in flat:
                 t["infinite"] = "yes"
+            ints = [x for x in flat if x[:1] in ("I", "N")]
+            if ints:
+                big = any(abs(int(x[1:])) > 2 ** 53 for x in ints)
+                t["integers"] = ("beyond-2^53" if big else "small") + ("+numpy" if any(x[0] in "ND" for x in flat if isint(x)) else "") + \
+                                ("+floats" if any(x[:1] not in ("I", "N") and x != "nan" for x in flat) else "")
+            if t["domain"] == "in" and self.npconv(case):
+                t["domain"] = "numpy-converts-an-integer"
         if k == "coll":
             t["tracks"] = len(case["tracks"])
+            if case.get("names"):
+                t["names"] = "exotic"
         if case.get("env"):
             t["env"] = "+".join(sorted(k_ for k_ in case["env"] if k_ != "extra_after"))
         return t
@@ -736,7 +1094,7 @@ class P(Prop):
         if k == "split":
             return len(case["m"]) >= 2 and "1" in case["m"]
         if k in ("splitv", "splitg"):
-            return any(self.marks(case))
+            return any(self.marks(case) or [])
         if k == "splitidx":
             return len(case["idx"]) >= 2
         if k == "coll":
@@ -813,10 +1171,17 @@ class P(Prop):
         k = case["kind"]
         if not env.get("extra_after"):
             extras()
+
+        def cols():          # other features with one value per observation (the operands an exotic name seems to mention)
+            for nm, toks in case.get("cols") or []:
+                put(nm, toks)
+        if not case.get("cols_after"):
+            cols()
         if k in ("split", "splitv", "splitg"):
-            put("marker", list(case["m"]) if k == "split" else case["vals"])
+            mname = case.get("mname", "marker")
+            put(mname, list(case["m"]) if k == "split" else case["vals"])
             if env.get("extra_after"):
-                extras("marker")
+                extras(mname)
         elif k == "seg":
             outname = case.get("outname", "out")
             for j, nm in enumerate(self.names(case)):
@@ -824,6 +1189,9 @@ class P(Prop):
                     put(nm, [r[j] for r in case["rows"]])
             if env.get("extra_after"):
                 extras(outname)
+        if case.get("cols_after"):
+            cols()
+        if k == "seg":
             pre = case.get("pre")
             if pre and pre["type"] == "vals":
                 put(outname, pre["vals"])
@@ -845,7 +1213,8 @@ class P(Prop):
             vals = [int(x) for x in toks] if nm == "tag" else [tokval(x) for x in toks]
             if env.get("numpy") and nm != "tag":      # cells computed with numpy: np.float64 / np.int64 scalars
                 import numpy as np
-                vals = [v if isinstance(v, bool) or hasattr(v, "year") else (np.int64(v) if isinstance(v, int) else np.float64(v)) for v in vals]
+                vals = [v if isinstance(v, bool) or hasattr(v, "year") or isint(x) else (np.int64(v) if isinstance(v, int) else np.float64(v))
+                        for v, x in zip(vals, toks)]        # ('I<n>' / 'N<n>' cells say themselves what they are)
             t.createAnalyticalFeature(nm, vals)
         return t
 
@@ -886,7 +1255,14 @@ class P(Prop):
         pieces, uids, content = self.pieces_of(coll, names, snap)
         if content is None and self.snapshot(t) != (names, snap):
             content = "split() modified the source track"
-        return {"pieces": pieces, "uids": uids, "content": content}
+        out = {"pieces": pieces, "uids": uids, "content": content}
+        # the same call once more on the same track (state left by the first call on the track, its observations or the
+        # module): the statement holds for every call, so the oracle is run on the second result too when it differs
+        coll2 = self.S.split(t, source) if limit == "default" else self.S.split(t, source, limval(limit))
+        pieces2, _u, content2 = self.pieces_of(coll2, names, snap)
+        if pieces2 != pieces or content2 != content:
+            out["again"] = {"pieces": pieces2, "content": content2}
+        return out
 
     # ---------------------------------------------------------------- implementation
     def mode_const(self, m):
@@ -897,7 +1273,7 @@ class P(Prop):
         if k in ("split", "splitv", "splitg"):
             n = len(case["m"]) if k == "split" else len(case["vals"])
             t = self.make_track(case, n)
-            return self.split_and_read(t, case.get("src", "marker"), case.get("limit", "default"))
+            return self.split_and_read(t, self.source(case), case.get("limit", "default"))
         if k == "splitidx":
             t = self.make_track(case, len(case["pts"]))
             return self.split_and_read(t, list(case["idx"]), case.get("limit", "default"))
@@ -906,10 +1282,12 @@ class P(Prop):
             t = self.make_track(case, len(rows))
             names = self.names(case)
             outname = case.get("outname", "out")
-            ths = [tokval(x) if istime(x) else fval(x) for x in case["ths"]]
+            ths = [tokval(x) if istime(x) else numval(x) for x in case["ths"]]
             pre = case.get("pre")
             if pre and pre["type"] == "seg":
-                self.S.segmentation(t, names, outname, [tokval(x) if istime(x) else fval(x) for x in pre["ths"]], self.mode_const(pre["mode"]))
+                self.S.segmentation(t, names, outname, [tokval(x) if istime(x) else numval(x) for x in pre["ths"]], self.mode_const(pre["mode"]))
+                if case.get("split"):
+                    self.S.split(t, outname)        # a split() on the earlier marker, result dropped: it must leave nothing behind
             afs_form, ths_form = self.forms(case)
             self.S.segmentation(t, names[0] if afs_form == "str" else names, outname,
                                 ths[0] if ths_form == "scalar" else ths, self.mode_const(case["mode"]))
@@ -921,25 +1299,26 @@ class P(Prop):
             return out
         if k == "coll":
             tracks, off = [], 0
+            names = case.get("names") or ["f%d" % j for j in range(len(case["tracks"][0][0]))]
+            outname = case.get("outname", "out")
             for rows in case["tracks"]:
-                tracks.append(self.make_track({"kind": "seg", "rows": rows}, len(rows), off))
+                tracks.append(self.make_track({"kind": "seg", "rows": rows, "names": names}, len(rows), off))
                 off += len(rows)
             coll = self.TC(tracks)
-            names = ["f%d" % j for j in range(len(case["tracks"][0][0]))]
-            ths = [fval(x) for x in case["ths"]]
+            ths = [numval(x) for x in case["ths"]]
             if case["mode"] == "default":
-                coll.segmentation(names, "out", ths)
+                coll.segmentation(names, outname, ths)
             else:
-                coll.segmentation(names, "out", ths, self.mode_const(case["mode"]))
+                coll.segmentation(names, outname, ths, self.mode_const(case["mode"]))
             marks = []
             allnames, allsnap = None, []
             for t in tracks:
-                mk = [t.getObsAnalyticalFeature("out", i) for i in range(t.size())]
+                mk = [t.getObsAnalyticalFeature(outname, i) for i in range(t.size())]
                 marks.append("".join("1" if v == 1 else "0" if v == 0 else "?" for v in mk))
                 nm, sn = self.snapshot(t)
                 allnames = nm
                 allsnap += sn
-            res = coll.split_segmentation("out")
+            res = coll.split_segmentation(outname)
             pieces, uids, content = self.pieces_of(res, allnames, allsnap)
             if content is None and coll.size() != len(tracks):
                 content = "split_segmentation() changed the collection it was called on"
@@ -947,19 +1326,28 @@ class P(Prop):
         raise ValueError(k)
 
     # ---------------------------------------------------------------- model
+    @staticmethod
+    def source(case):
+        """the feature name handed to split(): the name of the marker feature unless the case says otherwise"""
+        return case.get("src", case.get("mname", "marker"))
+
     def marks(self, case):
-        if case["kind"] == "split":
-            return [c == "1" for c in case["m"]]
-        src = case.get("src", "marker")
+        """which observations are marked: the cells of the feature called `source` that equal 1 (the case's own data,
+        looked up by the exact name); None when the track has no feature of that name"""
+        n = len(case["m"]) if case["kind"] == "split" else len(case["vals"])
+        src = self.source(case)
         if src in VIRTUAL:          # the marker is a virtual feature: a coordinate equal to 1
-            return [coord(p[VIRTUAL.index(src)]) == 1 for p in case["pts"]]
+            return [coord(p[VIRTUAL.index(src)]) == 1 for p in self.points(case, n)]
         if src == "idx":
-            return [i == 1 for i in range(len(case["vals"]))]
+            return [i == 1 for i in range(n)]
         if src == "t":              # toAbsTime() == 1
-            return [m == 1000 for m in self.times_ms(case, len(case["vals"]))]
+            return [m == 1000 for m in self.times_ms(case, n)]
         if src == "timestamp":      # an ObsTime is never equal to 1
-            return [False] * len(case["vals"])
-        return [VALS[v] == 1 for v in case["vals"]]
+            return [False] * n
+        col = dict((nm, toks) for nm, toks in self.table(case, n)).get(src)
+        if col is None:
+            return None
+        return [bool(tokval(v) == 1) for v in col]
 
     @staticmethod
     def pts_tok(pts):
@@ -972,20 +1360,31 @@ class P(Prop):
 
     @staticmethod
     def table_tok(tab):
-        return ";".join("%s=%s" % (nm, ",".join(valtok(tokval(x)) for x in toks) or "_") for nm, toks in tab) or "_"
+        return ";".join("%s=%s" % (enc(nm), ",".join(valtok(tokval(x)) for x in toks) or "_") for nm, toks in tab) or "_"
 
     def requests(self, case):
         k = case["kind"]
-        if k in ("split", "splitv"):
-            return ["C11.split " + ("".join("1" if b else "0" for b in self.marks(case)) or "_")]
-        if k == "splitg":
-            return ["C11.splitlim %s %s %s" % (self.limit_tok(case), "".join("1" if b else "0" for b in self.marks(case)) or "_",
-                                               self.pts_tok(case["pts"]))]
+        if k in ("split", "splitv", "splitg"):
+            # (a) the loop of split() on the marker vector worked out by the harness from the case's data;
+            # (b) the whole call on the model's track: the model looks the name up in the feature table and tests `== 1`
+            n = len(case["m"]) if k == "split" else len(case["vals"])
+            mk = self.marks(case)
+            pts = self.points(case, n)
+            xyz = ["%s=%s" % (v, ",".join(valtok(coord(p[c])) for p in pts) or "_") for c, v in enumerate(VIRTUAL)]
+            stamps = ",".join(mtok(x) for x in self.builtin_col(case, "timestamp", n)) or "_"
+            byname = "C11.splitname %s %s %s %s %s %s" % (self.limit_tok(case), enc(self.source(case)), ";".join(xyz), stamps,
+                                                          self.table_tok(self.table(case, n)), self.pts_tok(pts))
+            if mk is None:
+                return [byname]
+            mks = "".join("1" if b else "0" for b in mk) or "_"
+            if k == "splitg":
+                return ["C11.splitlim %s %s %s" % (self.limit_tok(case), mks, self.pts_tok(pts)), byname]
+            return ["C11.split " + mks, byname]
         if k == "splitidx":
             return ["C11.splitidx %s %s %s" % (self.limit_tok(case), ",".join(str(i) for i in case["idx"]) or "_", self.pts_tok(case["pts"]))]
         if k == "coll":
-            return ["C11.collseg %s %s %s" % ("and" if case["mode"] == "default" else case["mode"], ",".join(case["ths"]) or "_",
-                                              "|".join(";".join(",".join(r) for r in rows) for rows in case["tracks"]))]
+            return ["C11.collseg %s %s %s" % ("and" if case["mode"] == "default" else case["mode"], ",".join(mtok(x) for x in case["ths"]) or "_",
+                                              "|".join(";".join(",".join(mtok(v) for v in r) for r in rows) for rows in case["tracks"]))]
         erows = self.eff_rows(case)
         rows = ";".join(",".join(mtok(v) for v in r) for r in erows)
         n = len(erows)
@@ -1002,20 +1401,40 @@ class P(Prop):
         stamps = ",".join(mtok(x) for x in self.builtin_col(case, "timestamp", n)) or "_"
         calls = []
         pre = case.get("pre")
+        enames = [enc(nm) for nm in names]
         if pre and pre["type"] == "seg":
-            calls += [pre["mode"], "l:" + ",".join(names), outname, "l:" + (",".join(mtok(x) for x in pre["ths"]) or "_")]
+            calls += [pre["mode"], "l:" + ",".join(enames), enc(outname), "l:" + (",".join(mtok(x) for x in pre["ths"]) or "_")]
         afs_form, ths_form = self.forms(case)
-        calls += [case["mode"], ("s:" + names[0]) if afs_form == "str" else "l:" + ",".join(names), outname,
+        calls += [case["mode"], ("s:" + enames[0]) if afs_form == "str" else "l:" + ",".join(enames), enc(outname),
                   ("s:" + mtok(case["ths"][0])) if ths_form == "scalar" else "l:" + ths]
         tab = self.table_tok(self.table(case, n))
-        # the operator-call model (values: numbers or ObsTime objects) ...
+        # the operator-call model (values: numbers or ObsTime objects): the loops on the rows worked out by the harness, and the
+        # whole sequence of calls on the model's track (with split(): the marker is read back from the table by its name) ...
         lines = ["C11.%sv %s %s %s" % (cmd, case["mode"], ths, rows),
-                 "C11.segseqv %s %s %s %s" % (";".join(xyz), stamps, tab, " ".join(calls))]
+                 "C11.%s %s %s %s %s" % ("segseqsplitv" if case.get("split") else "segseqv", ";".join(xyz), stamps, tab, " ".join(calls))]
         # ... and, when every value in sight is a number, the numeric model as well: the two must answer the same
         if self.numeric(case):
             lines += ["C11.%s %s %s %s" % (cmd, case["mode"], ths, rows),
                       "C11.segseq %d %s %s %s" % (n, ";".join(virt), tab, " ".join(calls))]
+        # ... and, when a number says which Python type it has (int of any size, numpy scalar), the loops on numbers WITH their
+        # types (PNum: exact unless numpy converts the integer operand of an integer / float pair)
+        if self.pline(case):
+            lines.append("C11.%sp %s %s %s" % (cmd, case["mode"], ",".join(self.ptok(x) for x in case["ths"]) or "_",
+                                               ";".join(",".join(self.ptok(v, True) for v in r) for r in erows)))
         return lines
+
+    def pline(self, case):
+        return (self.has_types(case) and self.numeric(case) and not (case.get("env") or {}).get("numpy")
+                and not any(nm in VIRTUAL or nm in BUILTIN for nm in self.names(case)))
+
+    @staticmethod
+    def ptok(tok, cell=False):
+        if tok == "nan" or isint(tok):
+            return tok
+        if cell and tok in VALS:
+            v = VALS[tok]
+            return "I%d" % int(v) if isinstance(v, int) else valtok(v)
+        return tok
 
     def numeric(self, case):
         """no ObsTime anywhere: neither tested ('timestamp'), nor as a cell of the feature table, nor as a threshold"""
@@ -1031,10 +1450,37 @@ class P(Prop):
         for r in replies:
             if r == "bad-request":
                 raise ValueError("bad-request")
-        if k == "seg" and len(replies) == 4:
-            if replies[2:] != replies[:2]:
-                raise ValueError("model: the numeric model answers %s, the operator-call model %s" % (replies[2:], replies[:2]))
-            replies = replies[:2]
+        pl = None
+        if k == "seg":
+            replies = list(replies)
+            if self.pline(case):
+                pl = replies.pop()
+            if case.get("split") and " " in replies[1]:
+                # `<table> <pieces>`: the pieces of split() reading the marker back from the table by name must be those of
+                # split() on the marker vector of the rows
+                tab, pc = replies[1].split(" ")
+                if " " not in replies[0] or replies[0].split(" ")[1] != pc:
+                    raise ValueError("model: split() on the table by name gives %s, on the markers %s" % (pc, replies[0]))
+                replies[1] = tab
+            if len(replies) == 4:
+                if replies[2:] != replies[:2]:
+                    raise ValueError("model: the numeric model answers %s, the operator-call model %s" % (replies[2:], replies[:2]))
+                replies = replies[:2]
+        if k in ("split", "splitv", "splitg") and len(replies) == 2:
+            if replies[0] != replies[1]:
+                raise ValueError("model: split() reading the marker by name answers %s, the loop on the marker vector %s" % (replies[1], replies[0]))
+            replies = replies[:1]
+        if pl is not None and self.npconv(case):
+            # numpy converts an integer operand somewhere: the model is the typed one; markers (and pieces) only
+            if pl.startswith("err:"):
+                return {"err": pl}
+            parts = pl.split(" ")
+            out = {"markers": "" if parts[0] == "_" else parts[0], "npconv": True}
+            if case.get("split"):
+                out.update({"pieces": parse_pieces(parts[1]), "content": None})
+            return out
+        if pl is not None and pl != replies[0]:
+            raise ValueError("model: on numbers with their Python types the loops answer %s, on exact values %s" % (pl, replies[0]))
         for r in replies:
             if r.startswith("err:"):
                 return {"err": r}
@@ -1063,7 +1509,7 @@ class P(Prop):
         return out
 
     def compare(self, case, impl_out, model_out):
-        if not self.in_domain(case):
+        if not self.in_domain0(case):
             # fewer thresholds than features: the property promises nothing, so a change of behaviour there
             # (e.g. repairing the `>=` guard) must not be reported; the model's IndexError / float-max branch is
             # still exercised and any crash of the model side would surface as a driver failure
@@ -1076,8 +1522,9 @@ class P(Prop):
         # observation is marked. The pieces' uids (<uid>.<count>.<begin>.<end>, modelled by `splitU`) are compared on
         # the split streams; they are not part of the statement, so `spec` never looks at them
         with_uids = case["kind"] in ("split", "splitv", "splitg")
+        drop = ("table", "npconv") if model_out.get("npconv") else ()      # (numbers typed model: markers and pieces only)
         def canon(o):
-            o = {k: v for k, v in o.items() if k != "uids" or with_uids}
+            o = {k: v for k, v in o.items() if (k != "uids" or with_uids) and k not in drop}
             if case["kind"] == "coll":
                 o["pieces"] = [p for p in o["pieces"] if p]      # one possible empty trailing piece per track
             elif case["kind"] != "splitidx" and o.get("pieces") and o["pieces"][-1] == []:
@@ -1089,6 +1536,14 @@ class P(Prop):
 
     # ---------------------------------------------------------------- oracle (transfer)
     def spec(self, case, out):
+        e = self.spec1(case, out)
+        if e is None and isinstance(out, dict) and out.get("again"):
+            e = self.spec1(case, dict(out, pieces=out["again"]["pieces"], content=out["again"]["content"], again=None))
+            if e:
+                return "second split() of the same track: " + e
+        return e
+
+    def spec1(self, case, out):
         if not self.in_domain(case):
             return None
         k = case["kind"]
@@ -1143,7 +1598,7 @@ class P(Prop):
         if out["markers"] != want:
             bad = [i for i in range(len(want)) if i >= len(out["markers"]) or out["markers"][i] != want[i]][0]
             return ("marker %s, expected %s: observation %d with tested values %s (features %s) against thresholds %s in %s mode "
-                    "[@n = the instant n milliseconds after 1970-01-01]"
+                    "[@n = the instant n milliseconds after 1970-01-01; I<n> = the Python int n, N<n> = numpy.int64(n), other numbers are floats]"
                     % (out["markers"], want, bad, erows[bad], self.names(case), case["ths"], case["mode"].upper()))
         if case.get("split"):
             return oracle_split([c == "1" for c in want], out["pieces"])
@@ -1164,15 +1619,26 @@ class P(Prop):
             v = case["vals"]
             for i in range(len(v)):
                 if len(v) > 1:
-                    yield {"kind": "splitv", "vals": v[:i] + v[i + 1:]}
+                    c = dict(case, vals=v[:i] + v[i + 1:])
+                    if case.get("cols"):
+                        c["cols"] = [[nm, toks[:i] + toks[i + 1:]] for nm, toks in case["cols"]]
+                    yield c
+            for key in ("env", "cols"):
+                if case.get(key):
+                    yield {k_: v_ for k_, v_ in case.items() if k_ != key}
         elif k in ("splitg", "splitidx"):
             for key in ("env", "times"):
                 if case.get(key):
                     yield {k_: v for k_, v in case.items() if k_ != key}
             n = len(case["pts"])
+            if case.get("cols"):
+                for j in range(len(case["cols"])):
+                    yield dict(case, cols=case["cols"][:j] + case["cols"][j + 1:])
             for i in range(n):
                 if n > 1:
                     c = dict(case, pts=case["pts"][:i] + case["pts"][i + 1:])
+                    if case.get("cols"):
+                        c["cols"] = [[nm, toks[:i] + toks[i + 1:]] for nm, toks in case["cols"]]
                     if k == "splitg":
                         c["vals"] = case["vals"][:i] + case["vals"][i + 1:]
                     else:
@@ -1205,7 +1671,7 @@ class P(Prop):
                         yield dict(case, tracks=tr[:i] + [tr[i][:j] + tr[i][j + 1:]] + tr[i + 1:])
         else:
             rows = case["rows"]
-            for key in ("env", "times", "pts"):
+            for key in ("env", "times", "pts", "cols"):
                 if case.get(key):
                     yield {k_: v for k_, v in case.items() if k_ != key}
             if case.get("names") and not case.get("outname") and not any(nm in BUILTIN for nm in case["names"]):
@@ -1221,6 +1687,8 @@ class P(Prop):
                     for key in ("times", "pts", "tms"):
                         if case.get(key):
                             c2[key] = case[key][:i] + case[key][i + 1:]
+                    if case.get("cols"):
+                        c2["cols"] = [[nm, toks[:i] + toks[i + 1:]] for nm, toks in case["cols"]]
                     yield c2
             kf = len(rows[0])
             if kf > 1 and len(case["ths"]) >= kf and not case.get("pre") and not case.get("outname"):
@@ -1251,3 +1719,25 @@ class P(Prop):
         elif k == "seg":
             for mode in ("and", "or"):
                 yield dict(case, mode=mode)
+            if self.in_domain(case) and case["rows"]:
+                for _ in range(3):
+                    yield self.with_names(rng, dict(case, names=list(self.names(case))))
+            # the same comparison pattern on exact integers beyond 2^53: every (integer-valued) tested value and threshold
+            # moved by the same amount, as Python ints
+            toks = list(case["ths"]) + [v for r in case["rows"] for v in r] + list((case.get("pre") or {}).get("ths", []))
+            if (self.in_domain(case) and case["rows"] and self.numeric(case) and not case.get("names")
+                    and all(x == "nan" or (x not in ("inf", "-inf") and exact(x).denominator == 1) for x in toks)):
+                sh = lambda x, b: x if x == "nan" else "I" + str(int(exact(x)) + b)
+                for b in rng.sample(self.BIG, 3):
+                    c = {k_: v for k_, v in case.items() if k_ != "env"}
+                    c["ths"] = [sh(x, b) for x in case["ths"]]
+                    c["rows"] = [[sh(x, b) for x in r] for r in case["rows"]]
+                    if case.get("pre") and case["pre"]["type"] == "seg":
+                        c["pre"] = dict(case["pre"], ths=[sh(x, b) for x in case["pre"]["ths"]])
+                    yield c
+        if k in ("split", "splitv", "splitg") and "src" not in case:
+            # the same marker under a name that is not an identifier, next to the features the name seems to mention
+            n = len(case["m"]) if k == "split" else len(case["vals"])
+            for _ in range(4):
+                ops = rng.sample(self.OPERANDS, 2)
+                yield dict(case, mname=exotic_name(rng, ops, taken=ops), cols=self.rand_cols(rng, n, ops))
